@@ -438,6 +438,12 @@ fn literal_spellings(v: &Val, ty: &Ty, defs: &Defs, canon: &[bool]) -> Vec<(Stri
                         if *n >= 1 {
                             r.push(("range-reversed".into(), Literal::Range(5, 5u64.wrapping_sub(*n as u64), uty(*it)), false));
                         }
+                        // a range of the right length and element type that runs past the type's maximum
+                        if *n >= 1 && it.bits() < 64 {
+                            let max = it.max() as u64;
+                            r.push(("range-past-the-maximum".into(), Literal::Range(max + 2 - *n as u64, max + 2, uty(*it)), false));
+                            r.push(("range-starting-past-the-maximum".into(), Literal::Range(max + 1, max + 1 + *n as u64, uty(*it)), false));
+                        }
                         r.push(("range-wrong-elem-type".into(), Literal::Range(0, *n as u64, if *it == IntTy::U16 { UnsignedNumType::U8 } else { UnsignedNumType::U16 }), false));
                         r.push(("range-unspecified".into(), Literal::Range(0, *n as u64, UnsignedNumType::Unspecified), false));
                     }
@@ -544,6 +550,20 @@ fn text_spellings(v: &Val, canon_text: &str, canon: &[bool]) -> Vec<(String, Str
                 out.push(("range-text".into(), format!("{lo}..{hi}"), Expect::May(canon.to_vec())));
                 if !t.signed() {
                     out.push(("range-text-suffixed".into(), format!("{lo}{}..{hi}{}", t.name(), t.name()), Expect::May(canon.to_vec())));
+                }
+            }
+        }
+    }
+    // a range of the right length that runs past the maximum of the element type is no value of it
+    if let Val::Arr(es) = v {
+        if let Some(Val::Int(_, t)) = es.first() {
+            if t.bits() < 64 && es.iter().all(|e| matches!(e, Val::Int(..))) {
+                let n = es.len() as i128;
+                let max = t.max();
+                out.push(("range-text-past-the-maximum".into(), format!("{}..{}", max + 2 - n, max + 2), Expect::MustErr));
+                out.push(("range-text-starting-past-the-maximum".into(), format!("{}..{}", max + 1, max + 1 + n), Expect::MustErr));
+                if !t.signed() {
+                    out.push(("range-text-suffixed-start-past-the-maximum".into(), format!("{}{}..{}", max + 2 - n, t.name(), max + 2), Expect::MustErr));
                 }
             }
         }
